@@ -133,9 +133,15 @@ def shrink(module, R, oracle, budget=250):
     """Delta debugging over R['ops'] + module.simplify candidates."""
     spent = [0]
     if oracle in ("hang", "crash:MemoryError"):
-        budget = 12  # every candidate costs a full watchdog period
+        budget = 5  # every candidate costs a full watchdog period
+    # minimisation also has a wall-clock budget: a candidate that no longer fails the same way
+    # may still run into the watchdog, and 250 of those would take hours
+    deadline = _realtime.time() + float(os.environ.get("VERIF_SHRINK_WALL_S", "150"))
 
     def fails(cand):
+        if _realtime.time() > deadline:
+            spent[0] = budget  # stops every loop below
+            return False
         spent[0] += 1
         return _fails(module, cand, oracle)
 
